@@ -87,7 +87,10 @@ Definition sh_probes (s : section) (pk : list str) (pi : list str) : str :=
   ++ join (sl "|") (List.map (fun t => match t with (a, b, st) => sh_keys (getslice s a b st) end) slices)
   ++ sl "#" ++ sh_keys (delslice s None None).
 
-Definition mk (curve : bool) (name val dat : str) : item := new_item curve name [] val [] dat.
+(* every item the harness builds carries distinguishable unit and descr tags derived from its value tag
+   (items_common.Sim.mk: unit = "u" ++ val, descr = "d" ++ val), so that a unit/descr mix-up in get(), set_item,
+   __reduce__ ... shows in the observation *)
+Definition mk (curve : bool) (name val dat : str) : item := new_item curve name (117 :: val) val (100 :: val) dat.
 Definition sh_res (r : ires section) : str := match r with IOk _ => sl "ok" | IErr e => sh_err e end.
 Definition keep (s : section) (r : ires section) : section := match r with IOk s' => s' | IErr _ => s end.
 
